@@ -515,4 +515,15 @@ def main(tier, seed, replay_path=None):
           "(%d known), %.0fs" % (tier, programs, len(accepted), variants, len(all_sigs),
                                  coverage["divergences_total"],
                                  coverage["divergences_matching_known_findings"], wall))
-    return common.EXIT_VIOLATION if violations else common.EXIT_OK
+    if violations:
+        return common.EXIT_VIOLATION
+    if programs >= 20 and len(accepted) < 0.8 * programs:
+        # the property only speaks about accepted programs; if the compiler rejects (or crashes
+        # on) most of the generated programs in their base order there is nothing left to explore
+        # and "no divergence" would be vacuous. That is not a violation of C20 - it is a run that
+        # cannot decide.
+        print("HARNESS-ERROR: only %d of %d generated programs were accepted in their base order "
+              "(reasons: %s); the check cannot decide C20 on this tree" % (
+                  len(accepted), programs, rejected_reasons))
+        return common.EXIT_HARNESS
+    return common.EXIT_OK
